@@ -103,12 +103,11 @@ def run_case(case, res):
         else:
             prm = prm0
         Uref = U
-        if rep != "frac":
+        if rep in ("float", "npfloat"):
             # the reference works with the exact values of the floats that are actually passed (knots and parameters)
             prm = sorted(set(lib.to_frac(float(u)) for u in prm))
-            if rep != "int":
-                Uref = [lib.to_frac(float(k)) for k in U]
-                prm = [u for u in prm if Uref[0] <= u <= Uref[-1]]
+            Uref = [lib.to_frac(float(k)) for k in U]
+            prm = [u for u in prm if Uref[0] <= u <= Uref[-1]]
         expect = [rb.value(Uref, P, u, W, p) for u in prm]
         # scalar calls
         for u, ex in zip(prm, expect):
